@@ -77,6 +77,36 @@ def partial_case(rng, fmt=None, under=None):
             'repeat': 2 if rng.random() < 0.35 else 1}
 
 
+def vanish_case(rng):
+    """step list where an out-of-pattern entry of the approximation vanishes for exactly one of the steps
+    (fd + quad*(2x + s*h) == 0) while another out-of-pattern entry is nonzero for every step"""
+    fmt = rng.choice(['rowscols', 'coo', 'csr', 'csc', 'diag'])
+    n = rng.randrange(2, 5)
+    nr = nc = n
+    form = rng.choice(['forward', 'backward'])
+    sgn = 1 if form == 'forward' else -1
+    exps = rng.sample([0, 1], 2)
+    x = [rng.randrange(-2, 3) for _ in range(nc)]
+    fd = [[0] * nc for _ in range(nr)]
+    quad = [[0] * nc for _ in range(nr)]
+    for i in range(n):
+        fd[i][i] = rng.randrange(1, 9)
+    off = [(r, c) for r in range(nr) for c in range(nc) if r != c]
+    (r1, c1), (r2, c2) = rng.sample(off, 2)
+    k0 = rng.randrange(2)                      # the step at which entry (r1, c1) vanishes
+    q = rng.choice([2, 4, -2, -4])
+    quad[r1][c1] = q
+    fd[r1][c1] = -q * (2 * x[c1] * 2 ** exps[k0] + sgn) // 2 ** exps[k0]   # halves: v = -q (2x + s h)
+    fd[r2][c2] = rng.choice([1, 3, 5, 7])
+    pat = [[i, i] for i in range(n)]
+    if fmt in ('csr', 'csc'):
+        pat.sort(key=(lambda e: (e[0], e[1])) if fmt == 'csr' else (lambda e: (e[1], e[0])))
+    an = [[fd[r][c] + quad[r][c] * 2 * x[c] for c in range(nc)] for r in range(nr)]
+    return {'kind': 'partials', 'fmt': fmt, 'fd': fd, 'an': an, 'pat': pat, 'method': 'fd', 'form': form,
+            'stepexps': exps, 'ov': None, 'quad': quad, 'const': False, 'hist': False,
+            'tolexp': rng.choice([20, 3]), 'x': x, 'repeat': 1}
+
+
 def step_of(c, k):
     e = c['ov'] if c.get('ov') is not None else c['stepexps'][k]
     return Fraction(1, 2 ** e)
@@ -138,6 +168,8 @@ class C13(Spec):
                     cases.append(partial_case(rng, fmt, under))
         for _ in range(150 if quick else 3000):
             cases.append(partial_case(rng))
+        for _ in range(40 if quick else 600):
+            cases.append(vanish_case(rng))
         for _ in range(80 if quick else 1200):
             cases.append(totals_case(rng))
         return cases
